@@ -315,6 +315,7 @@ def run(ctx: Ctx):
     if model_vs_cpu:
         idx, clause, j = model_vs_cpu[0]
         raise tlc.TLCMachineryError(f"X86.tla disagrees with the CPU on {len(model_vs_cpu)} run(s), e.g. {clause} input #{j}\n{metas[idx]['asm']}")
+    ctx.coverage["functions_saving_callee_saved_registers"] = sum(1 for m in metas if "push" in m["asm"])
     ctx.coverage.update({"evaluations": sum(len(c["inputs"]) for c in cases), "distinct_nontrivial": len(cases), "functions": len(cases), "outcomes": stats,
                          "run_status_source/target": st, "machine_states": res.states, "native_runs_agreeing_with_X86_model": sum(len(c["inputs"]) for c in cases),
                          "rule": "generated i64 functions (1-6 arguments, constants incl. 32-/64-bit boundaries, add / mul chains with argument reuse; a third with 8-18 operations and "
